@@ -2245,5 +2245,46 @@ theorem cell_mapFirst_old_or_mapped (k : Nat) (g : α → Nat → Nat → α) (r
   · right; simp [h]
   · left; simp [h]
 
+/-! ## 13. equality -/
+
+theorem zip_all_beq [BEq α] [LawfulBEq α] :
+    ∀ (a b : List α), a.length = b.length →
+      (((a.zip b).all fun p => p.1 == p.2) = true ↔ a = b) := by
+  intro a
+  induction a with
+  | nil => intro b h; cases b <;> simp_all
+  | cons x xs ih =>
+    intro b h
+    cases b with
+    | nil => simp at h
+    | cons y ys =>
+      simp only [List.length_cons, Nat.add_right_cancel_iff] at h
+      simp only [List.zip_cons_cons, List.all_cons, Bool.and_eq_true, beq_iff_eq, ih ys h,
+        List.cons.injEq]
+
+/-- `==` on matrices satisfying the invariant is equality of their lists of rows -/
+theorem eqP_spec [BEq α] [LawfulBEq α] (a b : Matrix α) (ha : a.Inv) (hb : b.Inv) :
+    a.eqP b = true ↔ a.toRows = b.toRows := by
+  unfold eqP
+  constructor
+  · intro h
+    by_cases hr : a.rows = b.rows
+    · by_cases hc : a.columns = b.columns
+      · simp only [hr, hc, bne_self_eq_false, Bool.false_eq_true, if_false] at h
+        have hl : a.data.length = b.data.length := by rw [ha.1, hb.1, hr, hc]
+        have hd := (zip_all_beq a.data b.data hl).mp h
+        have : a = b := by
+          cases a; cases b; simp_all
+        rw [this]
+      · simp [hr, hc] at h
+    · simp [hr] at h
+  · intro h
+    have hr : a.rows = b.rows := by rw [← length_toRows a, ← length_toRows b, h]
+    have hc : a.columns = b.columns := by rw [← ncols_toRows a ha, ← ncols_toRows b hb, h]
+    have hd : a.data = b.data := by rw [← flatten_toRows a ha, ← flatten_toRows b hb, h]
+    simp only [hr, hc, bne_self_eq_false, Bool.false_eq_true, if_false]
+    rw [hd]
+    exact (zip_all_beq b.data b.data rfl).mpr rfl
+
 end Matrix
 end EasyMl
